@@ -207,6 +207,22 @@ pub fn search(seed: u64, n: u64) {
         stats.count("corpus_grid_case");
         collide_pair(&mut stats, &a, &b, "corpus.grid_rects");
     } }
+    // a path that crosses itself at one of its own vertices, the vertex lying EXACTLY on an axis-parallel edge of the path (zero-width
+    // bounding box of that edge in the sweep); own stream, coordinates on the 1/4 grid so that the vertex is exactly on the edge
+    let mut rng_v = Rng(seed ^ 0x7E27C03);
+    for k in 0..(4 + n / 50) {
+        let g = |rng: &mut Rng, lo: i64, hi: i64| (lo + rng.i((hi - lo + 1) as u64) as i64) as f64 * 0.25;
+        let (x0, y0) = (g(&mut rng_v, 120, 240), g(&mut rng_v, 40, 120));
+        let hgt = g(&mut rng_v, 16, 80);
+        let yv = y0 + (hgt * rng_v.r(0.2, 0.8) * 4.0).round() * 0.25;
+        let (a, b, c) = (g(&mut rng_v, 8, 60), g(&mut rng_v, 8, 60), g(&mut rng_v, -6, 6));
+        let mut pts = vec![Coord2(x0, y0), Coord2(x0, y0 + hgt), Coord2(x0 - a, y0 + hgt), Coord2(x0 - a, yv), Coord2(x0, yv), Coord2(x0 + b, (yv + c).max(y0 + 0.5)), Coord2(x0 + b, y0)];
+        if k % 2 == 1 { for q in pts.iter_mut() { *q = Coord2(q.1, q.0); } }
+        let p = redirect(&mut rng_v, &polygon(&pts));
+        stats.count("input.vertex_on_axis_parallel_edge");
+        stats.case(&format!("self_collide vertex_on_axis_parallel_edge {:?}", p), true);
+        self_collide_set(&mut stats, &vec![p], "odd_self.vertex_on_axis_parallel_edge");
+    }
     for it in 0..n {
         if it % 11 == 10 {
             // a self-intersecting or degenerate path (bow tie, looped cubic, tear drop, repeated vertex, pentagram) against a shape,
